@@ -21,15 +21,17 @@ CONSTANTS
     MaxSends, MaxRecvs,
     Realms,         \* realm strings the server may announce
     AlgLists,       \* PASSWORD-ALGORITHMS lists the server may offer (sequences of ids)
-    DevK1, DevK2    \* TRUE: model the code's deviations K1 / K2
+    DevK1, DevK2,   \* TRUE: model the code's deviations K1 / K2
+    Curated         \* TRUE: the server mostly sends well-formed challenges (for simulation)
 
 VARIABLES
     cs,        \* the client's credential state (LongTermCredentialClient)
     pend,      \* id of the outstanding request, 0 = none
     nsent, nrecv, nonceCtr,
     mm,        \* monitor view [cfg, lt, pend]
-    bad        \* rejected reasons so far
-vars == <<cs, pend, nsent, nrecv, nonceCtr, mm, bad>>
+    bad,       \* rejected reasons so far
+    hist       \* abstract steps with the predicted observation (for spec -> code replays)
+vars == <<cs, pend, nsent, nrecv, nonceCtr, mm, bad, hist>>
 
 Cfg == [mech |-> "lt", reliable |-> Reliable, fp |-> FALSE]
 NoParams == [state |-> "First", params |-> FALSE, realm |-> "", nonce |-> "", algsPresent |-> FALSE,
@@ -39,7 +41,7 @@ NonceStr(n) == IF n = 1 THEN "n1" ELSE IF n = 2 THEN "n2" ELSE IF n = 3 THEN "n3
 
 Init == /\ cs = NoParams /\ pend = 0 /\ nsent = 0 /\ nrecv = 0 /\ nonceCtr = 0
         /\ mm = [cfg |-> Cfg, lt |-> MZero.lt, pend |-> {}]
-        /\ bad = {}
+        /\ bad = {} /\ hist = <<>>
 
 KeyAlgOf(c) == IF c.alg # -1 THEN c.alg ELSE 1
 ClientKey(c) == KeyStr(c.realm, KeyAlgOf(c))
@@ -73,7 +75,12 @@ Request(c) ==
                 mi_keys |-> IF c.state # "First" /\ withInt /\ c.integ = "mi" THEN keys ELSE <<>>,
                 sha_keys |-> IF c.state # "First" /\ withInt /\ c.integ = "sha" THEN keys ELSE <<>>]]
 
-Observe(o) == /\ mm' = [mm EXCEPT !.lt = LtAfter(mm, o),
+EvKindLt(e) == IF e.k = "failed" THEN <<e.k, e.why>> ELSE IF e.k = "recvd" THEN <<e.k, e.cls>> ELSE <<e.k, "">>
+Observe(st, o) ==
+              /\ hist' = Append(hist, [st |-> st, res |-> o.res,
+                                        evk |-> [i \in DOMAIN o.ev |-> EvKindLt(o.ev[i])],
+                                        types |-> IF o.op = "send" THEN o.ev[1].d.types ELSE <<>>])
+              /\ mm' = [mm EXCEPT !.lt = LtAfter(mm, o),
                                   !.pend = (mm.pend \cup (IF o.op = "send" /\ o.res = "ok" THEN {o.id} ELSE {}))
                                            \ FinalIds(o)]
               /\ bad' = bad \cup {f \in WhyC08(mm, o) : ~IsKnownDeviation(f)}
@@ -83,7 +90,7 @@ Send ==
     /\ LET id == nsent + 1  q == Request(cs) IN
        /\ pend' = id /\ nsent' = id
        /\ UNCHANGED <<cs, nrecv, nonceCtr>>
-       /\ Observe([op |-> "send", res |-> "ok", id |-> id,
+       /\ Observe([a |-> "send"], [op |-> "send", res |-> "ok", id |-> id,
                    ev |-> <<[k |-> "out", id |-> id, d |-> [q EXCEPT !.id = id]]>>])
 
 (***************************************************************************)
@@ -116,16 +123,27 @@ Descriptor(msg, id) ==
         sha |-> IF present("sha") THEN "present" ELSE "absent",
         lt |-> [code |-> msg.code, realm_present |-> msg.realmPresent, realm |-> msg.realm,
                 nonce_present |-> msg.noncePresent, nonce |-> msg.nonce,
-                cookie |-> msg.pa \/ msg.ua, pa |-> msg.pa, ua |-> msg.ua,
+                \* the security feature bits live in the nonce cookie: no NONCE, no bits
+                cookie |-> msg.noncePresent /\ (msg.pa \/ msg.ua),
+                pa |-> msg.noncePresent /\ msg.pa, ua |-> msg.noncePresent /\ msg.ua,
                 algs_present |-> msg.algs # <<>>, algs |-> msg.algs, alg |-> -1, user |-> "absent",
                 dup |-> FALSE, mi_keys |-> keysOf("mi"), sha_keys |-> keysOf("sha")]]
 
+Challenges ==
+    IF Curated
+    THEN \* mostly well-formed challenges (cookie bit agrees with the list), a few ill-formed ones
+         {[cls |-> "error", code |-> 401, realmPresent |-> TRUE, realm |-> r, noncePresent |-> TRUE,
+           nonce |-> NonceStr(nonceCtr + 1), pa |-> (al # <<>>), ua |-> ua, algs |-> al, int |-> i] :
+             r \in Realms, ua \in BOOLEAN, al \in AlgLists \cup {<<>>}, i \in {"none", "good", "bad"}}
+         \cup {[cls |-> "error", code |-> 401, realmPresent |-> rp, realm |-> "r1", noncePresent |-> np,
+                nonce |-> NonceStr(nonceCtr + 1), pa |-> pa, ua |-> FALSE, algs |-> <<>>, int |-> "none"] :
+                  rp \in BOOLEAN, np \in BOOLEAN, pa \in BOOLEAN}
+    ELSE {[cls |-> "error", code |-> 401, realmPresent |-> rp, realm |-> r, noncePresent |-> np,
+           nonce |-> NonceStr(nonceCtr + 1), pa |-> pa, ua |-> ua, algs |-> al, int |-> i] :
+             rp \in BOOLEAN, r \in Realms, np \in BOOLEAN, pa \in BOOLEAN, ua \in BOOLEAN,
+             al \in AlgLists \cup {<<>>}, i \in {"none", "good", "bad"}}
 Messages ==
-    \* challenges
-    {[cls |-> "error", code |-> 401, realmPresent |-> rp, realm |-> r, noncePresent |-> np,
-      nonce |-> NonceStr(nonceCtr + 1), pa |-> pa, ua |-> ua, algs |-> al, int |-> i] :
-        rp \in BOOLEAN, r \in Realms, np \in BOOLEAN, pa \in BOOLEAN, ua \in BOOLEAN,
-        al \in AlgLists \cup {<<>>}, i \in {"none", "good", "bad"}}
+    Challenges
     \cup
     \* stale nonce
     {[cls |-> "error", code |-> 438, realmPresent |-> FALSE, realm |-> "", noncePresent |-> np,
@@ -189,16 +207,19 @@ Recv(msg, toPending) ==
        IN IF d.cls # "indication" /\ (pend = 0 \/ id # pend)
           THEN \* not an outstanding transaction
                /\ UNCHANGED <<cs, pend, nsent>>
-               /\ Observe([op |-> "recv", res |-> "discarded", id |-> id, arg |-> [d |-> d], ev |-> <<>>])
+               /\ Observe([a |-> "recv", msg |-> msg, tp |-> toPending],
+                           [op |-> "recv", res |-> "discarded", id |-> id, arg |-> [d |-> d], ev |-> <<>>])
           ELSE LET p == Process(d) IN
                IF p.r = "discard"
                THEN /\ UNCHANGED <<cs, pend, nsent>>
-                    /\ Observe([op |-> "recv", res |-> "discarded", id |-> id, arg |-> [d |-> d],
-                                ev |-> <<>>])
+                    /\ Observe([a |-> "recv", msg |-> msg, tp |-> toPending],
+                                [op |-> "recv", res |-> "discarded", id |-> id, arg |-> [d |-> d],
+                                 ev |-> <<>>])
                ELSE /\ cs' = p.cs
                     /\ pend' = IF d.cls = "indication" THEN pend ELSE 0
                     /\ UNCHANGED nsent
-                    /\ Observe([op |-> "recv", res |-> "ok", id |-> id, arg |-> [d |-> d],
+                    /\ Observe([a |-> "recv", msg |-> msg, tp |-> toPending],
+                                [op |-> "recv", res |-> "ok", id |-> id, arg |-> [d |-> d],
                                 ev |-> <<IF p.r = "ok" THEN [k |-> "recvd", id |-> id, cls |-> d.cls]
                                          ELSE IF p.r = "retry" THEN [k |-> "retry", id |-> id]
                                          ELSE IF p.r = "donotretry"
